@@ -435,9 +435,9 @@ func rawUpgradePath(addr, host, path, token, connection string) (net.Conn, *bufi
 }
 
 func TestC08Failures(t *testing.T) {
-	vlib.SetRule("C08", "TestC08Failures", "failure matrix on a real 2-node cluster with a drawn proxy timeout of 150-400 ms, local and forwarded paths, Go SDK and agent upstreams: no endpoint determinable (IP / dot-less Host, no header) -> 400; endpoint without upstream -> 502; upstream's node killed just before the request -> 502; upstream closes the stream without answering -> 502; upstream slower than the timeout -> 504 not earlier than the timeout and within the deadline; protocol upgrade with the token spelt websocket / WebSocket / WEBSOCKET held open for longer than the timeout -> still echoing afterwards; never a 2xx, never a hang; every case is non-trivial")
+	vlib.SetRule("C08", "TestC08Failures", "failure matrix on a real 2-node cluster with a drawn proxy timeout of 150-400 ms, local and forwarded paths, Go SDK and agent upstreams: no endpoint determinable (IP / dot-less Host, no header) -> 400; endpoint without upstream -> 502; upstream's node killed just before the request -> 502; upstream closes the stream without answering -> 502; upstream aborts in the middle of a response body (with or without Content-Length) -> the client sees a failed transfer, never a complete well-formed response of the fragment; upstream slower than the timeout -> 504 not earlier than the timeout and within the deadline; protocol upgrade with the token spelt websocket / WebSocket / WEBSOCKET held open for longer than the timeout -> still echoing afterwards; never a 2xx, never a hang; every case is non-trivial")
 	vlib.Run(t, "C08", func(c *vlib.Case) {
-		fail := c.OneOf("failure", "no-endpoint", "no-upstream", "node-killed", "closes-early", "slow", "upgrade")
+		fail := c.OneOf("failure", "no-endpoint", "no-upstream", "node-killed", "closes-early", "aborts-mid-body", "slow", "upgrade")
 		// the short timeout only where the timeout itself is under test; a loaded
 		// machine must not turn an immediate 502 into a 504
 		timeout := 10 * time.Second
@@ -507,6 +507,34 @@ func TestC08Failures(t *testing.T) {
 				}
 			}
 			expect(get("e1.piko.test", nil), 502, "upstream closes the stream without answering")
+		case "aborts-mid-body":
+			// the upstream starts a response of `promised` bytes and dies after `sent`:
+			// the client must not be handed the fragment as a complete response
+			promised := c.OneOf("promised", "2000", "70000", "300000")
+			var nPromised int
+			fmt.Sscan(promised, &nPromised)
+			sent := c.Int("sentPermille", 1, 900) * nPromised / 1000
+			withLength := c.Bool("contentLength")
+			up.Handler = func(u *Up, w http.ResponseWriter, r *http.Request, rec *Recorded) {
+				if withLength {
+					w.Header().Set("Content-Length", promised)
+				}
+				w.WriteHeader(200)
+				_, _ = w.Write(pat(sent, 7))
+				if f, ok := w.(http.Flusher); ok {
+					f.Flush()
+				}
+				time.Sleep(30 * time.Millisecond)
+				panic(http.ErrAbortHandler) // net/http aborts the connection without ending the body
+			}
+			res := get("e1.piko.test", nil)
+			c.Stepf("upstream promised %s bytes (Content-Length sent: %v) and aborted after %d -> status=%d body=%d bytes err=%v", promised, withLength, sent, res.Status, len(res.Body), res.Err)
+			if res.Err == nil && res.Status >= 200 && res.Status < 300 && len(res.Body) < nPromised {
+				c.Fatalf("C08 fabricated success: the upstream aborted after %d of %s bytes (Content-Length sent: %v), yet the client received a complete, well-formed %d response of %d bytes (entry %s, upstream %s)", sent, promised, withLength, res.Status, len(res.Body), entry.ID, kind)
+			}
+			if res.Err == nil && res.Status != 502 && !(res.Status >= 200 && res.Status < 300) {
+				c.Fatalf("C08: upstream aborted mid-body: answered %d", res.Status)
+			}
 		case "slow":
 			extra := time.Duration(c.Int("extraMs", 200, 600)) * time.Millisecond
 			up.Handler = func(u *Up, w http.ResponseWriter, r *http.Request, rec *Recorded) {
